@@ -44,7 +44,22 @@ pub fn zinc_observation(v: &V) -> String {
     let t = to_zinc_string(&lv).map_err(|e| e.to_string());
     let typed = typed_text(&lv);
     let back = t.as_ref().ok().map(|t| from_str(t).map(|b| format!("{:?}", from_lib(&b))).map_err(|e| e.to_string()));
-    format!("{t:?}|{typed:?}|{back:?}")
+    let failing: Vec<String> = [1usize, 2, 5]
+        .iter()
+        .map(|&k| {
+            let mut w = FailAt { calls: 0, k, out: vec![] };
+            format!("{:?}", lv.to_zinc(&mut w).map_err(|e| e.to_string()))
+        })
+        .collect();
+    // a text that fails to decode part-way (the value's own text cut in the middle)
+    let cut = t.as_ref().ok().map(|t| {
+        let mut k = t.len() / 2;
+        while !t.is_char_boundary(k) {
+            k -= 1;
+        }
+        from_str(&t[..k]).map(|b| format!("{:?}", from_lib(&b))).map_err(|e| e.to_string())
+    });
+    format!("{t:?}|{typed:?}|{back:?}|{failing:?}|{cut:?}")
 }
 
 pub fn zinc_roundtrip(v: &V) -> Verdict {
@@ -159,6 +174,21 @@ pub fn run(tier: Tier) -> i32 {
     run.note("history_pool", json!(pool.len()));
     let l = super::common::history_pairs("zinc-codec", &pool, &zinc_observation, &|v: &V| to_json(v));
     run.absorb(l);
+    // accumulation: 300 repetitions (incl. encodes into a failing writer and a decode that fails
+    // part-way) on each container, then the pool and deep values
+    {
+        let before: Vec<V> = {
+            let mut b = u::pool_containers1();
+            b.extend(u::pool_containers2().into_iter().step_by(5));
+            b.extend([u::small_grid(), u::meta_grid()]);
+            b.truncate(32);
+            b
+        };
+        let mut then: Vec<V> = pool.iter().step_by(9).cloned().collect();
+        then.extend(u::size_witnesses_cached(Tier::Quick).iter().filter(|v| (100..=127).contains(&u::json_depth(v))).take(4).cloned());
+        let l = super::common::history_after_repeats("zinc-codec", &before, &then, 300, &zinc_observation, &|v: &V| to_json(v));
+        run.absorb(l);
+    }
 
     // two values in one document: [w, v, {a:w b:v}] for all ordered pairs of the pool (state inside
     // one decode or encode call: a "last unit / last zone / last string" memo)
@@ -268,6 +298,9 @@ pub fn run(tier: Tier) -> i32 {
 }
 
 pub fn replay(case: &J) -> Verdict {
+    if case["history_repeats"].is_string() {
+        return super::common::replay_history_repeats(case, &|j| crate::model::v::from_json(j), &zinc_observation, "zinc-codec");
+    }
     if case["history_pair"].is_string() {
         let (w, v) = (crate::model::v::from_json(&case["before"]), crate::model::v::from_json(&case["then"]));
         let alone = std::thread::scope(|s| s.spawn(|| zinc_observation(&v)).join().unwrap());
